@@ -262,3 +262,35 @@ def parse_imf_date(s):
         return None
     return calendar.timegm((int(m.group(4)), _MONTHS.index(m.group(3)) + 1, int(m.group(2)), int(m.group(5)), int(m.group(6)),
                             int(m.group(7)), 0, 0, 0))
+
+
+def datetime_module(clock):
+    """stand-in for the `datetime` module inside a mapproxy module: everything is the real thing, except that
+    datetime.now()/utcnow()/today() read the simulated clock (in the process's local time zone, or in `tz`)"""
+    import datetime as real_dt
+
+    class SimDateTime(real_dt.datetime):
+        @classmethod
+        def now(cls, tz=None):
+            return cls.fromtimestamp(clock.time(), tz)
+
+        @classmethod
+        def utcnow(cls):
+            return cls.fromtimestamp(clock.time(), real_dt.timezone.utc).replace(tzinfo=None)
+
+        @classmethod
+        def today(cls):
+            return cls.fromtimestamp(clock.time())
+
+    class SimDate(real_dt.date):
+        @classmethod
+        def today(cls):
+            return cls.fromtimestamp(clock.time())
+
+    class Shim(object):
+        datetime = SimDateTime
+        date = SimDate
+
+        def __getattr__(self, name):
+            return getattr(real_dt, name)
+    return Shim()
